@@ -16,9 +16,14 @@ import (
 type Scenario struct {
 	ID      int    `json:"id"`
 	Class   string `json:"class"`   // subs | pair | shared | hooks
-	Backend string `json:"backend"` // hashmap | bbolt | injected
+	Backend string `json:"backend"` // hashmap | bbolt | injected (runtime.Registry) | injmap (InjectDatabase of a map storage that supports Delete)
 	Shadow  bool   `json:"shadow"`  // ShadowDelete of the database (not for injected)
 	Delay   Delay  `json:"delay"`   // yield-hook amplifier
+	// InjectLate (backend injected): the value providers are registered first and the
+	// registry is injected as database afterwards (the order modules use: providers
+	// are registered in prep, the runtime module injects in start); pushes go through
+	// the PushFunc obtained before the injection.
+	InjectLate bool `json:"inject_late,omitempty"`
 
 	Writers []WriterSpec `json:"writers,omitempty"`
 	Subs    []SubSpec    `json:"subs,omitempty"`
@@ -38,11 +43,13 @@ type Delay struct {
 
 // IfaceSpec are the database.Options of the interface a writer uses.
 type IfaceSpec struct {
-	Local    bool `json:"local"`
-	Internal bool `json:"internal"`
-	Secret   bool `json:"always_secret"`
-	Crown    bool `json:"always_crown"`
-	Cache    int  `json:"cache"`
+	Local    bool  `json:"local"`
+	Internal bool  `json:"internal"`
+	Secret   bool  `json:"always_secret"`
+	Crown    bool  `json:"always_crown"`
+	Cache    int   `json:"cache"`
+	AbsExp   int64 `json:"always_abs_expiry,omitempty"` // AlwaysSetAbsoluteExpiry = now + AbsExp
+	RelExp   int64 `json:"always_rel_expiry,omitempty"` // AlwaysSetRelativateExpiry
 }
 
 // WriterSpec is one writer goroutine: it owns its keys (no other writer touches them).
